@@ -14,6 +14,7 @@ mod cmd_group;
 mod cmd_termid;
 mod cmd_cats;
 mod cmd_reject;
+mod cmd_order;
 #[cfg(hpo_verif)]
 mod cmd_algo;
 mod enc;
@@ -47,6 +48,7 @@ fn main() {
         "replay-termid" => cmd_termid::run(&args),
         "replay-cats" => cmd_cats::run(&args),
         "replay-reject" => cmd_reject::run(&args),
+        "replay-order" => cmd_order::run(&args),
         #[cfg(hpo_verif)]
         "record-algo" => cmd_algo::run(&args),
         "debug-mismatch" => cmd_binary::debug_mismatch(&args),
@@ -71,6 +73,7 @@ fn main() {
                 "replay-termid" => cmd_termid::replay_one(&v),
                 "replay-cats" => cmd_cats::replay_one(&v),
                 "replay-reject" => cmd_reject::replay_one(&v),
+                "replay-order" => cmd_order::replay_one(&v),
                 other => {
                     eprintln!("unknown replay cmd {other}");
                     std::process::exit(2)
